@@ -422,7 +422,7 @@ package yang
 //@ spec fullName(s *Module) string = current(s) == "" ? s.Name : s.Name + "@" + current(s)
 //@ pred revsOK(s *Module) = s != nil && (forall i int :: 0 <= i && i < len(s.Revision) ==> s.Revision[i] != nil)
 //
-//@ func (*Modules).add props C13 C03
+//@ func (*Modules).add props C13 C03 C05
 //@   requires ms != nil && ms.Modules != nil && ms.SubModules != nil && n != nil && !typeis(n, *Statement)
 //@   requires typeis(n, *Module) ==> asptr(n, *Module) != nil && nodeName(n) == asptr(n, *Module).Name
 //@   requires forall x *Module :: x != nil ==> revsOK(x)
@@ -603,7 +603,7 @@ package yang
 //@ pred sameScalars(a *Entry, b *Entry) = a.Name == b.Name && a.Kind == b.Kind && a.Config == b.Config && a.Mandatory == b.Mandatory && a.Node == b.Node
 //@     && a.Type == b.Type && a.Prefix == b.Prefix && a.namespace == b.namespace && a.Description == b.Description && a.Units == b.Units && a.Key == b.Key
 //
-//@ func (*Entry).dup props C04 C06
+//@ func (*Entry).dup props C04 C06 C17
 //@   requires e != nil && built(e) && (forall x *Entry :: childOK(x) && builtOld(x))
 //@   ensures  result != nil && fresh(result) && sameScalars(result, e) && result.Parent == e.Parent
 //@   ensures  (result.Dir == nil) == (e.Dir == nil)
@@ -715,6 +715,24 @@ package yang
 // of the map it holds) happens with the guarding mutex of the same object
 // held -- write-held for writes -- unless the object was allocated in the same
 // call; every function returns with the mutexes in the state it found them.
+// C19: the read-only accessors change nothing that existed before the call
+// (what they return may be freshly allocated), so concurrent readers of a
+// processed set cannot race on them. A memo added to one of them is a frame
+// violation.
+//@ func (*Entry).Path props C19
+//@   modifies nothing
+//@   safe
+//@ func (*Entry).DefaultValues props C19
+//@   requires e != nil && (e.ListAttr != nil || !(e.Kind == LeafEntry && e.ListAttr != nil))
+//@   modifies nothing
+//@ func (*Entry).SingleDefaultValue props C19
+//@   requires e != nil && (e.ListAttr != nil || !(e.Kind == LeafEntry && e.ListAttr != nil))
+//@   modifies nothing
+//@ func (*Entry).GetWhenXPath props C19
+//@   modifies nothing
+//@ func (*Entry).Modules props C19
+//@   modifies nothing
+//
 //@ lock_property C19
 //@ guarded_by Modules.byNS nsMu
 //@ guarded_by Modules.entryCache entryCacheMu
